@@ -10,6 +10,7 @@ import (
 	"fmt"
 	"io"
 	"log"
+	"math"
 	"strconv"
 	"sync"
 	"time"
@@ -284,6 +285,9 @@ func (tdsChan *Channel) handleSpecialPackage(pkg Package) (bool, error) {
 				if err != nil {
 					return false, fmt.Errorf("error parsing new packet size '%s' to int: %w",
 						member.NewValue, err)
+				}
+				if packSize <= PacketHeaderSize || packSize > math.MaxUint16 {
+					return false, fmt.Errorf("server announced invalid packet size %d", packSize)
 				}
 				tdsChan.tdsConn.packetSize = packSize
 			}
